@@ -10,7 +10,7 @@ def body(A, Bn, objA, objB, job):
     fails = []
     # view 1: the annotated diff tree
     d = A.diff(Bn)
-    top = d.edit
+    top = d.edit_list[0] if d.edit_list else None       # the edit TreeNode.diff computed for the root
     if top is None:
         return [dict(tag='no-edit', site='TreeNode.diff', detail=None)]
     cost_tree = d.edited_cost()            # fully tightens the edits attached to the root
@@ -39,3 +39,13 @@ def run_job(job):
 def replay_witness(w):
     r = th.replay(w, body)
     return ', '.join(sorted(set(f['tag'] + '@' + str(f['site']) for f in r))) if r else None
+
+
+def jobs(tier, seed):
+    js = th.tree_jobs(tier)
+    js += [dict(j, alpha=3) for j in th.KNOWN_DUP_JOBS]
+    return js
+
+META = dict(functions=th.TREE_FUNCTIONS, stubs=th.TREE_STUBS, assumptions=th.TREE_ASSUME, files=th.TREE_FILES)
+bounds_text = th.tree_bounds_text
+REGIONS = dict(mset_duplicates=lambda w, f: th.has_duplicate_members(w))
